@@ -391,6 +391,15 @@ fn spread_cases(out: &mut Vec<Case>) {
         out.push(Case::new(format!("v := {}\nprint(\"pre\")\nprint([1, v..])\n", bad), T_EXPECT_ERR, format!("spread of {}", bad)));
         out.push(Case::new(format!("fn f(..r) {{\n}}\nv := {}\nprint(\"pre\")\nf(v..)\n", bad), T_EXPECT_ERR, format!("argument spread of {}", bad)));
     }
+    // the right-hand side is evaluated completely before anything is bound
+    for perm in [[1usize, 2, 0], [2, 0, 1], [1, 0, 2], [0, 2, 1], [2, 1, 0]] {
+        let names = ["p", "q", "r"];
+        let rhs: Vec<&str> = perm.iter().map(|i| names[*i]).collect();
+        out.push(Case::new(format!("p := 1\nq := 2\nr := 3\n[p, q, r] = [{}]\nprint([p, q, r])\n", rhs.join(", ")), T_REF, format!("simultaneous assignment {:?}", perm)));
+        out.push(Case::new(format!("xs := [1, 2, 3]\n[xs[0], xs[1], xs[2]] = [xs[{}], xs[{}], xs[{}]]\nprint(xs)\n", perm[0], perm[1], perm[2]), T_REF, format!("simultaneous element assignment {:?}", perm)));
+        out.push(Case::new(format!("o := {{\"p\": 1, \"q\": 2, \"r\": 3}}\n{{\"p\": o.{}, \"q\": o.{}, \"r\": o.{}}} = {{\"p\": o.p, \"q\": o.q, \"r\": o.r}}\nprint(o)\n", names[perm[0]], names[perm[1]], names[perm[2]]), T_REF, format!("simultaneous property assignment {:?}", perm)));
+    }
+    out.push(Case::new("a := 1\nb := 2\n[a, b] = [b, a + b]\nprint([a, b])\n[a, b] := [b, a]\n".to_string(), T_REF, "fibonacci step then redeclaration".to_string()));
     // object spread round trip
     for mask in 0..8u32 {
         let mut e = vec![];
